@@ -109,6 +109,13 @@ theorem C08_scanN_tiles {T : LexTables} (hT : TWF T) (src : List Nat) (k : Nat) 
   obtain ⟨h1, h2, h3, h4, h5, h6, h7⟩ := scan_spec hT hr
   exact ⟨rfl, hr, h2, h3, h4, h1.pos_le, h5, h6, h7⟩
 
+/-- (C08d) cursors never move backwards and never pass the end of the input -/
+theorem C08_cursor_mono {T : LexTables} (hT : TWF T) (src : List Nat) (k : Nat) :
+    (scanStates T src k).pos ≤ (scanStates T src (k + 1)).pos ∧
+    (scanStates T src (k + 1)).pos ≤ src.length := by
+  obtain ⟨_, _, _, h3, h4, h5, _⟩ := C08_scanN_tiles hT src k
+  exact ⟨Nat.le_trans h3 h4, h5⟩
+
 /-- the stream reaches end of input after at most `src.length` calls -/
 theorem C08_reaches_eof {T : LexTables} (hT : TWF T) (src : List Nat) :
     (scanStates T src src.length).pos = src.length := by
